@@ -208,9 +208,30 @@ def literal_case(draw):
     return {"text": draw(literal_text()), "legal": True}
 
 
+POSITIONS = ["{L}", "[{L}][0]", "local x = {L}; x", "{{a: {L}}}.a", "(function(x) x)({L})", "std.abs({L})", "{L} + 0",
+             "[x for x in [{L}]][0]", "{{a: {L}}} == {{a: {L}}}", "std.toString([{L}])"]
+
+
 def check_literal(case):
     text = case["text"]
-    r = util.eval_one(text, want=["typed"])
+    res = util.eval_exprs([p.format(L=text) for p in POSITIONS], want=["typed"])
+    r = res[0]
+    plain0 = text.replace("_", "")
+    try:
+        overflow = case["legal"] and float(plain0) == float("inf")
+    except ValueError:
+        overflow = False
+    for p, rp in zip(POSITIONS[1:], res[1:]):
+        if util.is_ok(rp) != util.is_ok(r) and not (not case["legal"]):
+            raise Violation("literal-position-dependent", f"literal {text[:60]!r}: `{POSITIONS[0].format(L=text)[:60]}` "
+                            f"{'succeeds' if util.is_ok(r) else 'fails'} but `{p.format(L=text)[:80]}` {'succeeds' if util.is_ok(rp) else 'fails'}")
+        if util.is_ok(rp) and not util.all_finite(util.typed(rp)) or (util.is_ok(rp) and isinstance(util.typed(rp), str) and ("inf" in util.typed(rp) or "NaN" in util.typed(rp))):
+            raise Violation("literal-nonfinite", f"`{p.format(L=text)[:80]}` evaluated to a non-finite number: {V.show(util.typed(rp))}")
+        if overflow and util.is_ok(rp):
+            raise Violation("literal-overflow-accepted", f"literal {text[:60]!r} rounds to infinity but `{p.format(L=text)[:80]}` evaluated to {V.show(util.typed(rp))}")
+        if util.is_ok(rp) and util.is_ok(r) and p in ("[{L}][0]", "local x = {L}; x", "{{a: {L}}}.a", "(function(x) x)({L})", "[x for x in [{L}]][0]") \
+                and util.typed(rp) != util.typed(r):
+            raise Violation("literal-position-dependent", f"literal {text[:60]!r} denotes {V.show(util.typed(r))} at top level but {V.show(util.typed(rp))} in `{p.format(L=text)[:80]}`")
     if not case["legal"]:
         # must not silently denote a number with the malformed part included
         if util.is_ok(r):
